@@ -26,6 +26,7 @@ LAYOUT = ['act', 'internal', 'result', 'tmp']
 RESULT_FILES = ['exit-code', 'stderr', 'stdout']
 
 D1_ENDINGS = ['pass', 'fail', 'hard_setup', 'hard_before_assert', 'hard_assert', 'hard_cleanup', 'hard_act',
+              'hard_act_exec',
               'validation', 'syntax', 'skip']
 DISTURB = ['cd_root', 'cd_tmp', 'cd_newdir', 'env_set', 'env_set_act', 'env_unset', 'env_path', 'chmod_files',
            'chmod_tree', 'deep_tree', 'symlinks', 'tmp_files', 'cd_deleted']
@@ -324,6 +325,9 @@ def build_d1(case, marker_dir):
     elif e == 'hard_act':
         L['setup'].append('file -rel-act not-exe.txt = "x"')
         act = '-rel-act not-exe.txt'
+    elif e == 'hard_act_exec':
+        # the action passes every validation but the OS cannot start it
+        act = '% no-such-program-c04 an-argument'
     elif e == 'validation':
         L['cleanup'].insert(0, 'file x = @[UNDEFINED_SYM]@')
     elif e == 'syntax':
@@ -337,11 +341,11 @@ def build_d1(case, marker_dir):
         L['assert'] + asserts + ['[cleanup]'] + L['cleanup']
     text = '\n'.join(lines) + '\n'
     sandbox = e not in ('validation', 'syntax', 'skip')
-    act_ran = sandbox and e not in ('hard_setup', 'hard_act')
+    act_ran = sandbox and e not in ('hard_setup', 'hard_act', 'hard_act_exec')
     # which disturbances were actually executed?
     order = ['setup', 'before-assert', 'assert', 'cleanup']
     reached = {'pass': 4, 'fail': 4, 'hard_cleanup': 4, 'hard_assert': 3 if w == 'assert' else 4,
-               'hard_before_assert': 1, 'hard_setup': 0, 'hard_act': 1}.get(e, 0)
+               'hard_before_assert': 1, 'hard_setup': 0, 'hard_act': 1, 'hard_act_exec': 1}.get(e, 0)
     return text, {'sandbox': sandbox, 'act_ran': act_ran, 'exp_out': exp_out, 'exp_err': exp_err,
                   'uses_tmp': uses_tmp}
 
@@ -424,6 +428,20 @@ def run_d1(case, ctx):
                     else:
                         if case['ending'] == 'hard_setup' and _ls(os.path.join(root, 'result')) != []:
                             bad('result/ not empty although the act phase never ran: %r' % _ls(os.path.join(root, 'result')))
+                        if case['ending'] in ('hard_act', 'hard_act_exec'):
+                            # the action could not be started: there is no exit code.  Whatever result/ holds then,
+                            # a file named exit-code holds an exit code
+                            ctx.count('c04.result_dir_checks')
+                            ecp = os.path.join(root, 'result', 'exit-code')
+                            if os.path.exists(ecp):
+                                with open(ecp, 'rb') as f:
+                                    ecb = f.read()
+                                if not ecb.strip().isdigit():
+                                    bad('result/exit-code holds %r although the action was never executed (no exit '
+                                        'code exists)' % ecb[:40])
+                            extra = [n for n in _ls(os.path.join(root, 'result')) if n not in RESULT_FILES]
+                            if extra:
+                                bad('result/ holds %r besides the documented %r' % (extra, RESULT_FILES))
     # the same case executed as a member of a suite (`exactly suite`): every execution uses its own sandbox, which is
     # removed when the case ends, and the process is left as it was
     if not case['keep'] and not r.timed_out and 'cd_deleted' not in case['disturb'] and \
